@@ -109,9 +109,26 @@ fn borrow_probes() -> Vec<Probe> {
     let mut out = vec![];
     for r in rows() {
         let rowname = format!("{}::{}", r.ty, r.name);
-        let mut muts: Vec<(&str, &str)> = vec![("put", "c.put(3, String::from(\"c\"));"), ("purge", "c.purge();"), ("remove", "c.remove(&1);")];
+        // every operation that relinks, frees or overwrites entries counts as a mutation
+        let mut muts: Vec<(&str, &str)> = vec![
+            ("put", "c.put(3, String::from(\"c\"));"),
+            ("purge", "c.purge();"),
+            ("remove", "c.remove(&1);"),
+            ("get", "c.get(&2);"),
+            ("get_mut", "c.get_mut(&2);"),
+        ];
         if r.ty == "RawLRU" {
             muts.push(("resize", "c.resize(1);"));
+            muts.push(("get_lru", "c.get_lru();"));
+            muts.push(("get_lru_mut", "c.get_lru_mut();"));
+            muts.push(("remove_lru", "c.remove_lru();"));
+            muts.push(("peek_or_put", "c.peek_or_put(9, String::new());"));
+            muts.push(("contains_or_put", "c.contains_or_put(9, String::new());"));
+        }
+        if r.ty == "SegmentedCache" {
+            muts.push(("put_protected", "c.put_protected(3, String::new());"));
+            muts.push(("remove_lru_from_probationary", "c.remove_lru_from_probationary();"));
+            muts.push(("remove_lru_from_protected", "c.remove_lru_from_protected();"));
         }
         let base = format!("{}pub fn probe() {{\n    {}\n    {}\n", PRELUDE, setup(r.ty), fill());
         // P1: reference held across a mutation / control: used before the mutation
